@@ -72,11 +72,17 @@ def main(tier):
         dict(path=H, fname='_c08_channels', params={}, timeout=100, self_reach=True, label='exactly one input channel', bounds={'channels': 'all 8 combinations'}),
         dict(path=H, fname='_c08_dirs', params={}, timeout=100, self_reach=True, label='label ignores directories', bounds={'directories': 6, 'names': 6}),
     ]
+    for ci, cs in enumerate([None, 1, 2, 3, 4, 5, 6, 7, 1000]):
+        mx = 2 if tier == 'quick' else 3
+        jobs.append(dict(path=H, fname='_c08_context', params={'chunk_i': ci, 'maxn': mx}, timeout=300 if tier == 'quick' else 1200, self_reach=True,
+                         label=f'context freedom, nothing stubbed: real query() with reference chunk size {cs if cs is not None else "default"}',
+                         bounds={'database': '5 reference genomes in 2 species + genus, signatures stored in another order with an unrelated one in between', 'batch': f'1..{mx} of 5 queries in every order (repeats allowed)',
+                                 'chunk size': cs if cs is not None else 'default', 'classification': 'default and strict', 'compared with': 'the same query alone with default parameters (bitwise distances, taxa, closest-genome list)'}))
     xprop.run_jobs(run, jobs, rung='X: rows')
     xprop.note_sources(run, ['src/gambit/cli/common.py', 'src/gambit/cli/query.py', 'src/gambit/query.py'])
     run.bounds = {'K': 'stems of 0..6 (quick) / 9 (thorough) arbitrary characters x 6 FASTA extensions or none x .gz or not', 'X': 'see obligations'}
     run.stubs = ['calc_file_signatures -> tag per file in order (its own order guarantee is C13)', 'jaccarddist_matrix -> row i filled with i', 'get_result_item -> records the row and the input it was given',
-                 'load_signatures -> stored ids', 'exporter -> captures the results object']
+                 'load_signatures -> stored ids', 'exporter -> captures the results object', 'context-freedom conditions: nothing stubbed (real query, kernels, SQLite in memory)']
     run.outside = ['-c / progress display / gzip equivalence / real file parsing (I/O, processes)', 'characters beyond U+00FF in file names', 'batches of more than 3 inputs']
     run.assumptions = ['context-freedom is structural: item i is produced by get_result_item from distance row i and input i only, which the recording stub observes']
     return run.finish(
